@@ -24,6 +24,46 @@ def fuzz(name, run, fuzztime, **kw):
 
 
 CHECKS = {
+    "C04": {
+        "quick": [
+            plain("regress", "^TestRegressC04"),
+            rapid("concurrent", "^TestC04Concurrent$", 1500, 4, timeout=300, shrinktime="5s"),
+        ],
+        "thorough": [
+            plain("regress", "^TestRegressC04"),
+            rapid("concurrent", "^TestC04Concurrent$", 20000, 12, timeout=3000),
+            rapid("concurrent-race", "^TestC04Concurrent$", 2500, 4, race=True, timeout=3000),
+        ],
+    },
+    "C09": {
+        "quick": [
+            plain("regress-race", "^TestRegressC09", race=True),
+            rapid("concurrent-race", "^TestC09Concurrent$", 400, 4, race=True, timeout=300, shrinktime="5s"),
+        ],
+        "thorough": [
+            plain("regress-race", "^TestRegressC09", race=True),
+            rapid("concurrent-race", "^TestC09Concurrent$", 10000, 16, race=True, timeout=3000),
+        ],
+    },
+    "C19": {
+        "quick": [
+            plain("regress", "^TestRegressC19"),
+            rapid("open", "^TestC19Open$", 2500, 2),
+            rapid("url", "^TestC19URL$", 2500, 1),
+            rapid("raw", "^TestC19Raw$", 2500, 1),
+            rapid("stdlog", "^TestC19StdLog$", 8000, 1),
+            rapid("registry", "^TestC19Registry$", 3000, 1),
+        ],
+        "thorough": [
+            plain("regress", "^TestRegressC19"),
+            rapid("open", "^TestC19Open$", 40000, 6, timeout=3000),
+            rapid("url", "^TestC19URL$", 40000, 4, timeout=3000),
+            rapid("raw", "^TestC19Raw$", 40000, 2, timeout=3000),
+            rapid("stdlog", "^TestC19StdLog$", 200000, 2, timeout=3000),
+            rapid("registry", "^TestC19Registry$", 40000, 2, timeout=3000),
+            fuzz("fuzz", "^FuzzC19$", "60s"),
+        ],
+    },
     "C20": {
         "quick": [
             plain("regress", "^(TestRegressC20|TestC20RoundTrip)$"),
@@ -150,6 +190,20 @@ CHECKS = {
             rapid("concurrent-race", "^TestC11Concurrent$", 3000, 8, race=True, timeout=3000),
         ],
     },
+    "C12": {
+        "quick": [
+            plain("regress", "^TestRegressC12"),
+            rapid("sequential", "^TestC12Sequential$", 1200, 4, timeout=150, shrinktime="5s"),
+            rapid("concurrent", "^TestC12Concurrent$", 500, 2, timeout=150, shrinktime="5s"),
+            rapid("crash", "^TestC12Crash$", 80, 2, timeout=150, shrinktime="5s"),
+        ],
+        "thorough": [
+            plain("regress", "^TestRegressC12"),
+            rapid("sequential", "^TestC12Sequential$", 40000, 12, timeout=3000),
+            rapid("concurrent-race", "^TestC12Concurrent$", 2500, 8, race=True, timeout=3000),
+            rapid("crash", "^TestC12Crash$", 300, 10, timeout=3000),
+        ],
+    },
     "C13": {
         "quick": [
             plain("regress", "^(TestRegressC13|TestC13MultiExhaustive)$"),
@@ -226,9 +280,13 @@ CHECKS = {
     },
 }
 
-LEVELS = {"C10": "fault_enumeration"}
+LEVELS = {"C10": "fault_enumeration", "C12": "fault_enumeration", "C19": "fault_enumeration"}
 
 RULES = {
+    "C04": "cases = programs of 2-8 goroutines x 1-30 ops over the front ends Logger.Info/Log, Check+Write, Sugar w/f/ln/plain, child loggers made by With/Named/WithLazy inside the goroutine, the std-log bridge and a zapio.Writer per goroutine, plus Sync, hand-delivered flush ticks and yields; entries carry a unique token (goroutine, sequence) and padding of 0..3x the buffer size with a checkable pattern; sink topologies Lock(sink), CombineWriteSyncers(A,B), zap.Open on two real files, BufferedWriteSyncer(64..4096) over a sink, tee(JSON->Lock, console->Buffered); GOMAXPROCS drawn from {1,2,4,16}; the recording sink copies in two halves with a yield and trips on overlapping entry. Oracle = every stream splits into intact lines (C01 predicate), tokens with intact padding, per-goroutine order, multiset equals accepted entries, per tee branch; no overlap. Non-trivial = lines of different goroutines alternate in the sink and (for buffered sinks) an entry larger than the buffer. Distinct = distinct (topology, buffer size, GOMAXPROCS, goroutines, alternation class).",
+    "C09": "cases = programs of 2-8 goroutines x 1-12 ops over the concurrency-safe API (Logger/Sugar log methods incl. terminal levels with returning hooks, Check, With, WithLazy, Named, WithOptions, Level, Sync, Sugar/Desugar, AtomicLevel Set/Level/Enabled/ServeHTTP/MarshalText, ReplaceGlobals/L/S, observer readers, slog handler derivation and Handle, BufferedWriteSyncer Write/Sync/Stop with a real 1ms ticker, Lock-ed syncer over a deliberately unsafe buffer, a second-level lazy child) on a composition of tee(JSON->Lock, console->Buffered, hooked observer) under a sampler, increase-level, logger hooks and a fresh or warmed WithLazy logger; half of the programs focus on 2-5 ops so that several goroutines perform the same first use; run under the race detector with halt_on_error (the program is dumped before it runs). Non-trivial = fresh shared objects and >= 2 goroutines touching one shared object with a writer-like op. Distinct = distinct programs (hash).",
+    "C19": "cases = (a) Open/Build fault sequences: 0-5 output and 0-4 error-output paths, each a scripted test-scheme URL (succeeds with a counting sink or fails), an unknown scheme, a path in a missing directory, a real file, stdout/stderr, an upper-case scheme with query/fragment, or a rejected file URL - every subset/position failing; Config error paths (missing level, unknown/empty/upper-case encoding, TimeKey without EncodeTime); (b) file URLs built from components (scheme case, user info, host, port, path needing escapes, query, fragment) so verdict and decoded path are known by construction; raw strings with invariants only; (c) RedirectStdLog/At under arbitrary prior flags/prefix/writer with valid and invalid levels; (d) sink scheme and encoder names from a grammar (valid, upper-case, empty, leading digit, illegal characters, non-ASCII incl. U+212A/U+017F/U+0130, duplicates in any case). Non-trivial = >= 2 sinks with a failure after a success; URL with exactly one disqualifying component; rejected registration. Distinct = distinct (mode, path-kind sequence) etc.",
+    "C12": "cases = rapid state machine over one BufferedWriteSyncer with Size in 1..64 or 4096 and a harness-owned ticker: Write of length {0, 1, exactly the free space, free+1, size, size+1, 3*size, random} with unique content, Sync, tick (processed = the recording sink saw the resulting Sync), Stop (repeated), and all of these after Stop; concurrent: 2-6 goroutines running scripts of framed writes, Sync, ticks and Stop against one syncer; crash: a child process runs a generated script against a real file through a sink that SIGKILLs the process at a generated sink-call index (before or after the call) or between two script ops, acknowledging after every returned Sync/first Stop. Oracle = model list of accepted writes (prefix, whole-write alignment of every sink write, held back <= Size, flushed+synced after Sync/first Stop/processed tick, no flush goroutine after Stop); crash: the file is a whole-write-aligned prefix containing everything acknowledged. Non-trivial = a write that does not fit into a non-empty buffer and a write larger than the buffer (crash: the kill landed). Distinct = distinct (size, op sequence) resp. crash points.",
     "C13": "cases = payloads (empty, whitespace-only, with/without trailing newline or CRLF, leading/trailing spaces, up to 1 MiB, arbitrary bytes) on zapio.Writer (enabled and disabled), the std-log bridge writer (NewStdLog, NewStdLogAt, RedirectStdLog+log.Writer), zaptest.TestingWriter (plain and markFailed) and BufferedWriteSyncer (sizes 0..256 KiB); multi-syncers of 1-5 scripted sinks over 1-4 calls with a full outcome vector per sink and call (count in {len, 0, 1, len-1}, error or nil, Sync error or nil) and exhaustive enumeration of all 16^k vectors for k<=2 (+ a slice of k=3); AddSync/Lock relays over scripted results; 2-8 goroutines of Write/Sync through Lock onto an overlap-detecting sink. Non-trivial = the minimum count is not at index 0, or a payload the writer trims/splits. Distinct = distinct outcome matrices / payload classes.",
     "C20": "cases = (a) level texts: the seven names and 'warning' in every letter-case mix, '', near misses (spaces, prefixes, Level(7)), non-ASCII look-alikes (U+0130, dotless i, full-width, zero-width), arbitrary strings and bytes, against targets holding any of the 256 values, through Level.UnmarshalText, Set/flag parsing, ParseLevel, ParseAtomicLevel, AtomicLevel.UnmarshalText, JSON and YAML documents; a sweep of all 256 values through String/CapitalString/MarshalText/JSON/YAML/flag round trips; (b) sequences of 1-8 HTTP requests (GET, PUT, POST, DELETE, HEAD, PATCH, lower-case, unknown methods; JSON/form/other/no content type; well-formed JSON, odd JSON, form body, query parameter, both, garbage, empty) against one AtomicLevel shared with a live derived logger. Oracle = ASCII-only reference parser; HTTP invariants plus accept/reject known by construction. Non-trivial = invalid or mixed-case text; HTTP: a rejected request between two accepted PUTs with different levels. Distinct = distinct text classes / sequence shapes.",
     "C18": "cases = a tree of handlers built by 0-6 random WithGroup (names incl. '' and duplicates) / WithAttrs derivations from random parents, then records (slog levels -8..12 incl. the gaps, hostile messages) with 0-3 attributes logged through every handler twice in drawn orders; attributes are trees of every slog Kind (string, int64, uint64, bool, duration, float64, time, Any of error/stringer/slice/map/nil/struct/bytes), named groups, inline groups, literally empty groups, empty attrs and LogValuers resolving to any of those; core threshold -1..3. Oracle = reference model of the slog.Handler contract (ordered tree), plus key-nesting differential against slog.NewJSONHandler when every attribute is solid; Enabled/handled iff the core enables the mapped level; level mapping swept over -200..200. Non-trivial = deferred group opening (WithGroup then WithAttrs starting with an empty attr), or an empty group/attr via WithAttrs or via a LogValuer. Distinct = distinct (derivation sequence shape, threshold, class flags).",
@@ -258,6 +316,26 @@ ASSUMPTIONS = {
 TRUST = "Trusted base: Go toolchain/runtime, rapid's generators and shrinker, the reference model/oracle code in /verif/harness/props, and the standard-library packages used as reference implementations. Search-based: absence of a counterexample in the generated cases is not a proof."
 
 META = {
+    "C04": {
+        "technique": "property-based testing over generated multi-goroutine programs (rapid) with harness-owned schedule perturbation; stream-level oracle (intact lines, token multiset, per-goroutine order); optional race detector run",
+        "level_text": "Each generated program really runs its goroutines against the drawn sink topology; afterwards every sink's byte stream must split into complete lines that pass the C01 predicate and decode to a token with intact padding, the multiset of tokens must equal the accepted entries (no loss, duplicate, merge), each goroutine's tokens must be in order, every tee branch must satisfy this separately and the sink must never have been entered by two calls at once. Exploration: interleavings are sampled (GOMAXPROCS, yields, split sink copy), not enumerated; a failing program is dumped as JSON and replayed 200 times because schedule-dependent failures do not shrink.",
+        "level_note": TRUST + " Interleavings are sampled; a violation that needs one specific interleaving can be missed.",
+    },
+    "C09": {
+        "technique": "generated multi-goroutine programs (rapid) executed under the Go race detector with halt_on_error and per-case attribution; panics recovered; deadlock watchdog with goroutine-dump classification",
+        "level_text": "Generated programs over the whole documented concurrent surface run on fresh (never used) or warmed shared objects under -race; a race report kills the shard with exit code 66 and the program dumped just before is the failing case; any panic fails the case; a watchdog expiry is a violation only if the goroutine dump shows goroutines blocked inside zap. Exploration: the race detector only sees races that happen in the sampled schedules.",
+        "level_note": TRUST + " Trusted: the Go race detector. Absence of reports is not absence of races; liveness is a bounded watchdog.",
+    },
+    "C19": {
+        "technique": "property-based fault injection (rapid): scripted sink factories and generated path lists for Open/Config.Build, by-construction file URLs, std-log settings snapshots, name grammars for the registries; fuzzing of raw URL strings",
+        "level_text": "The enumerated dimension is which of the configured destinations fails and where: on success a write must reach every destination exactly once and close() must close each opened sink exactly once; on failure every sink that was opened must have been closed exactly once (factory counters, descriptors below the case's directory), rejected URLs must create no file and the standard logger's flags, prefix and writer must be untouched; a file URL must be opened iff it has no user info, port, query or fragment and an empty/localhost host, and then exactly its decoded path must be created; registrations must fail for empty/malformed/duplicate names without changing the registry. fault_enumeration with sampled positions for longer lists.",
+        "level_note": TRUST + " /proc/self/fd is used to observe leaked descriptors; stdout/stderr are redirected to /dev/null while a case runs.",
+    },
+    "C12": {
+        "technique": "model-based stateful property testing (rapid t.Repeat) with a harness-owned clock; concurrent scripts with framed records; generated kill points in a re-executed child process (fault enumeration)",
+        "level_text": "Sequential histories are checked against a list-of-accepted-writes model after every operation (prefix, never a split write, bounded hold-back, flush+sink Sync after Sync/first Stop/processed tick, loop gone after Stop, repeated Stop harmless); concurrent scripts must deliver every framed record exactly once in per-goroutine order without deadlock; for crash points the enumerated dimension is the kill position (sink-call index before/after, between script ops) and the file left behind must be a whole-write-aligned prefix that contains everything acknowledged by Sync. fault_enumeration: kill positions are sampled, not exhausted, for long scripts.",
+        "level_note": TRUST + " D2: a second Stop is a documented no-op, so the flush guarantee is asserted for Sync, the first Stop and processed ticks. Liveness is a bounded watchdog; SIGKILL at sink-call and between-op boundaries are the observable crash points for a regular file.",
+    },
     "C13": {
         "technique": "property-based testing (rapid) with scripted sinks: io.Writer contract predicate on every zap writer, reference min/aggregate model for the multi syncer with exhaustive small outcome vectors, relay and mutual-exclusion checks for AddSync/Lock, fuzzing",
         "level_text": "Each zap-provided writer must return (len(p), nil) for every generated payload it accepts; the multi syncer must call every sink exactly once per call with identical bytes regardless of earlier failures, return the smallest reported count and an error that is nil iff all were nil and otherwise names every failing sink, and Sync must reach every sink; AddSync must return writers that already have Sync unchanged and otherwise add a nil no-op Sync while relaying results; Lock must relay results, not double wrap, and never let two calls overlap in the wrapped sink. Exploration plus exhaustive enumeration of the small outcome-vector space.",
